@@ -216,6 +216,8 @@ def run(ctx):
     ctx.rule('C06.2-paths', 'per slot instantiation: Python closure == C handler (path sets with value terms), plain and contended', floor=2 * 1100)
     compare_slots(ctx, m, (('py', 'cp'), ('cm', 'cc')), 'C06.2-paths')
     interrupt_rule(ctx, m)
+    from sa.rules import C08paging
+    C08paging.paging_functions(ctx, repo, m)      # the three out7ffd() bodies (Python x2, C) are siblings too: shared with C08.4
     from sa.rules import intloop
     intloop.run(ctx, repo, 'C06.6-int-window')
     intloop.c_conditions(ctx, repo, 'C06.7-int-condition')
